@@ -71,6 +71,38 @@ def unitsStep (tok : List String) : Option String :=
   | ["ct.cmp", t1, f1, t2, f2] => do
       let t1 ← nat? t1; let f1 ← f64? f1; let t2 ← nat? t2; let f2 ← f64? f2
       pure (toString (ClockTime.cmp (⟨t1, f1⟩ : ClockTime Float) ⟨t2, f2⟩))
+  | ["ct.adda", t, f, x] => do
+      let t ← nat? t; let f ← f64? f; let x ← f64? x
+      pure (showCt (ClockTime.addAssignF64 ⟨t, f⟩ x))
+  | ["ct.suba", t, f, x] => do
+      let t ← nat? t; let f ← f64? f; let x ← f64? x
+      pure (showCt (ClockTime.subAssignF64 ⟨t, f⟩ x))
+  | ["ct.addua", t, f, n] => do
+      let t ← nat? t; let f ← f64? f; let n ← nat? n
+      pure (showCt (ClockTime.addAssignU64 ⟨t, f⟩ n))
+  | ["ct.subua", t, f, n] => do
+      let t ← nat? t; let f ← f64? f; let n ← nat? n
+      match ClockTime.subAssignU64 (⟨t, f⟩ : ClockTime Float) n with
+      | some r => pure (showCt r)
+      | none => pure "fault overflow"
+  | ["ct.fromu", n] => do let n ← nat? n; pure (showCt (ClockTime.fromTicksU64 n))
+  | ["ct.ord", t1, f1, t2, f2] => do
+      let t1 ← nat? t1; let f1 ← f64? f1; let t2 ← nat? t2; let f2 ← f64? f2
+      let a : ClockTime Float := ⟨t1, f1⟩
+      let b : ClockTime Float := ⟨t2, f2⟩
+      let bit := fun (c : Bool) => if c then "1" else "0"
+      pure (String.intercalate " " [bit (a.lt b), bit (a.le b), bit (a.gt b), bit (a.ge b), bit (a.eqv b)])
+  | ["ct.seq", t, f, items] => do
+      let t ← nat? t; let f ← f64? f
+      let r ← (items.splitOn ",").foldlM (fun (acc : ClockTime Float) (item : String) =>
+        let arg := (item.drop 1).toString
+        match (item.take 1).toString with
+        | "a" => (f64? arg).map (fun x => ClockTime.addAssignF64 acc x)
+        | "s" => (f64? arg).map (fun x => ClockTime.subAssignF64 acc x)
+        | "A" => (nat? arg).map (fun n => ClockTime.addAssignU64 acc n)
+        | "S" => (nat? arg).bind (fun n => ClockTime.subAssignU64 acc n)
+        | _ => none) (⟨t, f⟩ : ClockTime Float)
+      pure (showCt r)
   | ["ease", e, x] => do let e ← parseEasing e; let x ← f64? x; pure (show64 (e.apply x))
   | ["map64", i0, i1, o0, o1, e, x] => do
       let i0 ← f64? i0; let i1 ← f64? i1; let o0 ← f64? o0; let o1 ← f64? o1
